@@ -236,7 +236,9 @@ func (g *gen) mutation(nb int) Mutation {
 	if nb < 1 {
 		nb = 1
 	}
-	switch g.r.Pick(45, 20, 8, 8, 8, 6, 5) {
+	switch g.r.Pick(45, 20, 8, 8, 8, 6, 5, 3) {
+	case 7:
+		return Mutation{Kind: "oversize", Val: g.r.PickInt(1, 2, 100, 272, 273)}
 	case 0:
 		return Mutation{Kind: "flip", Field: fieldKinds[g.r.Pick(3, 6, 6, 6, 8, 18, 20, 14, 9, 10)], Block: g.r.Intn(nb), Byte: g.r.Intn(1 << 20), Bit: g.r.Intn(8)}
 	case 1:
@@ -314,7 +316,7 @@ func (g *gen) hostile(p *Plan) {
 		p.Inputs = []Input{g.input(g.r.Range(0, 3000))}
 		o := g.wopts(1)
 		o.BS = 4
-		skipLen := g.r.PickInt(0, 1, 7, 100, 4096)
+		skipLen := g.r.PickInt(0, 1, 7, 100, 4096, g.r.Range(0, 40), g.r.Range(0, 40))
 		items := []HItem{{Kind: "word", Val: word}, {Kind: "word", Val: uint32(skipLen)}, {Kind: "fill", Len: skipLen, Seed: g.r.Uint64()}}
 		st = Stored{Base: "hostile", In: 0, Hostile: &Hostile{Items: items}, Tail2: &Stored{Base: "lz4w", Opts: &o, In: 0}}
 	}
@@ -339,7 +341,7 @@ func (g *gen) hostileGrammar() *Hostile {
 	}
 	// optional skippable frames with hostile lengths
 	for g.r.Chance(1, 4) {
-		l := g.r.PickU32(0, 1, 100, 0xFFFFFFFF, 0x7FFFFFFF, 0x80000000, 1<<20)
+		l := g.r.PickU32(0, 1, 100, 0xFFFFFFFF, 0x7FFFFFFF, 0x80000000, 1<<20, uint32(g.r.Range(0, 40)), uint32(g.r.Range(0, 40)))
 		add(HItem{Kind: "word", Val: 0x184D2A50 + uint32(g.r.Intn(16))})
 		add(HItem{Kind: "word", Val: l})
 		if l <= 1<<20 && g.r.Chance(3, 4) {
@@ -551,6 +553,23 @@ func (g *gen) creader(p *Plan) {
 	// byte around) the boundaries of what the reader emits
 	c.Exact = g.r.Chance(1, 3)
 	c.ExactSeed = g.r.Uint64()
+	if g.r.Chance(1, 5) {
+		// reuse of the object: Reset onto a new source, other options
+		o2 := WOpts{BS: g.blockIdx(), BSum: g.r.Bool(), CSum: g.r.Bool(), Conc: 1, Level: g.r.Pick(70, 20, 10)}
+		if o2.BS > 5 && g.r.Chance(2, 3) {
+			o2.BS = 4
+		}
+		if g.r.Chance(1, 4) {
+			o2.Size = -1
+		}
+		n2 := g.length(BlockBytesOf(o2), 3)
+		p.Inputs = append(p.Inputs, g.input(n2))
+		c2 := CScript{Opts: o2, In: 1, Frag: g.fragFor(n2), EOFWithData: g.r.Chance(1, 3)}
+		for i, k := 0, g.r.Range(1, 3); i < k; i++ {
+			c2.Sizes = append(c2.Sizes, g.r.PickInt(1, 7, 100, 4096, 65536, n2+1000, g.r.Range(1, 70000)))
+		}
+		c.Next = &c2
+	}
 	p.CRs = []CScript{c}
 	p.Phases = [][]string{{"C0"}}
 }
